@@ -21,24 +21,31 @@ import unicodedata
 from fractions import Fraction
 
 import common
+import floatref
 import lexcfg
 from yaql.language import exceptions, expressions
 from yaql.language import factory as yfactory
 
 ID = 'C16'
-LEAN_MODULES = ['Yaql.Props.C16', 'Yaql.Props.C03Lex']
+LEAN_MODULES = ['Yaql.Props.C16', 'Yaql.Props.C16Float', 'Yaql.Props.FloatRound', 'Yaql.Props.C03Lex']
 REQUIRED_THEOREMS = [
     'Yaql.Props.C16.roundtrip_single', 'Yaql.Props.C16.roundtrip_double', 'Yaql.Props.C16.unescaped_self',
     'Yaql.Props.C16.escape_values', 'Yaql.Props.C16.unknown_escape_kept', 'Yaql.Props.C16.verbatim_identity',
     'Yaql.Props.C16.verbatim_spellable_iff', 'Yaql.Props.C16.verbatim_unspellable',
     'Yaql.Props.C16.int_literal', 'Yaql.Props.C16.dot_means_float', 'Yaql.Props.C16.keywords',
     'Yaql.Props.C16.func_before_keyword',
+    'Yaql.Props.C16.literalFloat_spec',
+    'Yaql.Props.FloatRound.roundRat_nearest', 'Yaql.Props.FloatRound.roundRat_exact', 'Yaql.Props.FloatRound.roundRat_tie_even',
+    'Yaql.Props.FloatRound.roundRat_overflow_iff_rat', 'Yaql.Props.FloatRound.roundRat_mono_rat',
+    'Yaql.Props.FloatRound.roundRat_congr_rat', 'Yaql.Props.FloatRound.roundRat_total',
     'Yaql.Props.C03Lex.nextTok_progress', 'Yaql.Props.C03Lex.lexical_position_inside',
     'Yaql.Props.C03Lex.conversions_total', 'Yaql.Props.C03Lex.lexFrom_step',
 ]
 TRUSTED = ["CPython's re engine, Unicode tables (\\w, \\d, int() of a digit), codecs 'unicode-escape', "
-           "unicodedata name table, float() rounding: parameters / oracles of the model, read from the "
-           "running interpreter for every code point sent",
+           "unicodedata name table: parameters / oracles of the model, read from the "
+           "running interpreter for every code point sent (float() rounding is NOT trusted any more: the model computes the "
+           "double of a literal itself, FloatRound.roundRat, proved nearest/ties-to-even/exact/monotone, and the real "
+           "Constant.value is compared with it bit for bit)",
            'ply.lex rule ordering (function rules by line, string rules by decreasing regex length): modelled, '
            'differential only']
 ASSUMPTIONS = ['lone surrogates are outside the model (Lean Char): an escape denoting one is reported as such by the '
@@ -934,6 +941,9 @@ def run(env, res):
 
     if env['replay']:
         rp = json.load(open(env['replay']))['case']
+        if rp.get('section') == 'floatround':
+            floatref.replay(env, res, rp)
+            return res
         engs = [Eng(rp['engine'])]
         run_ = Runner(env, res, engs, rng)
         if rp['fam'] == 'next':
@@ -973,6 +983,7 @@ def run(env, res):
         run_.next_offsets(run_.nx)
     hist['engines'] = len(engs)
     hist['verbatim_unspellable_strings_seen'] = run_.known_seen
+    hist['floatround'] = floatref.run_section(env, res, ID, 500 if env['tier'] == 'quick' else 6000)
     res.extra['histogram'] = dict(families=run_.fam_hist, real_outcomes=run_.out_hist, **hist)
     res.extra['engines'] = [e.rc for e in engs][:8]
     res.extra['int_max_str_digits'] = limit
@@ -985,15 +996,18 @@ LEVEL_TEXT = ('Lean 4 theorems over an executable model of yaql/language/lexer.p
               '(roundtrip_single/double), unescaped characters stand for themselves, every escape shape has its documented '
               'value, unknown escapes are kept, a back-quoted string changes only \\` (verbatim_identity), the exact set of '
               'strings with a back-quoted spelling (verbatim_spellable_iff) with the constructed spelling, digit strings denote '
-              'their decimal value, a dot makes a float with the decimal rational handed to float(), true/false/null/keywords/__ '
+              'their decimal value, a dot makes a float whose double is the decimal rational digits/10^k correctly rounded INSIDE the model '
+              '(literalFloat_spec over FloatRound.roundRat: nearest binary64, ties to even, inf from 2^1024-2^970 on, exact on '
+              'representable decimals, 1.50 = 1.5, monotone), true/false/null/keywords/__ '
               'rule, word( is a call. Lexer half of C03: every token() call advances, lexical error positions lie inside the text '
               'and name the text there, conversions never have a third outcome, lexAll is the iteration of token(). Tied to '
               'the code by running the compiled model and the real lexer+parser on every BMP code point, sampled astral ones, '
               'all escape shapes, biased strings, big integers, decimals, Unicode words, token soups under default/legacy/custom '
               'operator tables.')
 LEVEL_NOTE = ('partial where the runtime decides: Unicode classes, the \\N{} name table, int()/float() text conversion and the re '
-              'engine are parameters of the model read from the running interpreter; float rounding is compared with '
-              'int/int correctly-rounded division. Known finding K2: strings with an odd backslash run before a back quote, a '
+              'engine are parameters of the model read from the running interpreter; the double of a float literal is computed by '
+              'the model (proved correctly rounded) and compared bit for bit with the real Constant.value, with float(Fraction) / '
+              'int/int division as the independent second derivation of the oracle. Known finding K2: strings with an odd backslash run before a back quote, a '
               'newline or the end have no back-quoted spelling (language design; theorem verbatim_spellable_iff).')
 TECHNIQUE = 'Lean 4 proof (induction over strings, ordered-alternative semantics of the escape regex) + differential lexing'
 DESIGN_REF = 'DESIGN.md section 5, C16 (and the lexer obligations of C03)'
